@@ -445,9 +445,6 @@ func (p *Proxy) handleConnectRequest(ctx *Context, req *http.Request, session *S
 		if _, err := io.Copy(w, r); err != nil && err != io.EOF {
 			log.Errorf("martian: failed to copy CONNECT tunnel: %v", err)
 		}
-		if w == io.Writer(brw) {
-			brw.Flush()
-		}
 		closeWrite(dst)
 
 		log.Debugf("martian: CONNECT tunnel finished copying")
@@ -456,10 +453,10 @@ func (p *Proxy) handleConnectRequest(ctx *Context, req *http.Request, session *S
 
 	donec := make(chan bool, 2)
 	// Copy from brw so that bytes that arrived together with the CONNECT request
-	// are forwarded first, and write to cconn directly so that nothing is held
-	// back in a write buffer.
+	// are forwarded first, and write to cconn and conn directly (brw has just been
+	// flushed) so that nothing is held back in a write buffer.
 	go copySync(cconn, brw, cconn, donec)
-	go copySync(brw, cconn, conn, donec)
+	go copySync(conn, cconn, conn, donec)
 
 	log.Debugf("martian: established CONNECT tunnel, proxying traffic")
 	<-donec
@@ -650,7 +647,6 @@ func (p *Proxy) connect(req *http.Request) (*http.Response, net.Conn, error) {
 		if err != nil {
 			return nil, nil, err
 		}
-
 		return res, conn, nil
 	}
 
